@@ -67,7 +67,7 @@ fn props() -> Vec<PropCfg> {
             quick_runs: 300_000,
             thorough_runs: 6_000_000,
             rule: "One evaluation = one seeded simulated run of the `blockwise` family (1-4 clients, 1-3 transfers each, budget drawn relative to the measured overheads, swarm-drawn drop/dup/delay faults, client retransmission timers on the simulated clock). Non-trivial = a download that the ground-truth premise classifier placed inside C08's premise (blocks 0,1,2,... arrived once each in order, contiguous on its key, budget in [overhead+28,1280]) and that took >= 2 exchanges; distinct = distinct abstract tuples (exchange count, block size chosen, body length class mod block size, (budget-overhead-28)/8 bucket, option-set size, early-negotiation exponent, reduction exponent, token length), counted by 64-bit hash.",
-            assumptions: &["the stub server loop drives the library the way README.md and examples/server.rs show", "sampling: a clean batch is evidence, not proof", "bodies <= 20000 bytes, <= 4095 blocks"],
+            assumptions: &["the stub server loop drives the library the way README.md and examples/server.rs show", "client stubs and oracles use an independent reference codec (encoder, parser, block option codec), not the crate's", "sampling: a clean batch is evidence, not proof", "bodies <= 20000 bytes, <= 4095 blocks"],
             real: REAL_BLOCK,
             stub: STUB_BLOCK,
         },
@@ -78,7 +78,7 @@ fn props() -> Vec<PropCfg> {
             quick_runs: 300_000,
             thorough_runs: 6_000_000,
             rule: "One evaluation = one seeded simulated run of the `blockwise` family. Non-trivial = an upload inside C09's premise per the ground-truth classifier (its blocks arrived in order, each >= 1 times consecutively, contiguous on its key, only well-shaped transfers incl. abandoned in-order prefixes before it, budget admits the client's block size) with >= 2 block deliveries; distinct = distinct abstract delivery histories (per delivery: duplicate?, more flag, size exponent; total deliveries; clean-or-abandoned-prefix before), counted by 64-bit hash.",
-            assumptions: &["the stub server loop drives the library the way README.md and examples/server.rs show", "sampling: a clean batch is evidence, not proof", "bodies <= 5000 bytes"],
+            assumptions: &["the stub server loop drives the library the way README.md and examples/server.rs show", "client stubs and oracles use an independent reference codec (encoder, parser, block option codec), not the crate's", "sampling: a clean batch is evidence, not proof", "bodies <= 5000 bytes"],
             real: REAL_BLOCK,
             stub: STUB_BLOCK,
         },
@@ -143,7 +143,7 @@ fn props() -> Vec<PropCfg> {
             level: "fault_enumeration",
             quick_runs: 30_000,
             thorough_runs: 1_000_000,
-            rule: "Documents (0-4 links x 0-4 attributes, all four attribute writers, values over an alphabet of quotes, backslashes, separators, angle brackets, spaces, newlines and 2/3/4-byte characters, newline option on/off) are sampled by seed; for EACH document the fault space is swept completely: every index k of the write calls the fault-free run issues x {fail only call k, fail call k and all later ones, torn write: call k accepts a prefix on a char boundary then fails}. One evaluation = one faulted write of one document (plus one fault-free write per document). Distinct non-trivial = distinct (document, fault position k, fault mode) triples; distinct_secondary = distinct (kind of write call hit, mode, newline option, first/later link) classes.",
+            rule: "Documents (0-4 links x 0-4 attributes, all four attribute writers, values over an alphabet of quotes, backslashes, separators, angle brackets, spaces, newlines and 2/3/4-byte characters, newline option on/off) are sampled by seed; for EACH document the fault space is swept completely: every index k of the write calls the fault-free run issues x {fail only call k, fail call k and all later ones, torn write: call k accepts a prefix on a char boundary then fails}. One evaluation = one faulted write of one document (plus one fault-free write per document). Distinct non-trivial = distinct (document, fault position k, fault mode) triples, counted as 3 x write calls per distinct document; distinct_secondary = distinct (kind of write call hit, mode, newline option, first/later link) classes.",
             assumptions: &["exhaustive per sampled document, not over documents (coverage.exhaustive=false refers to the property)", "fmt::Write sinks fail only by returning Err from write_str"],
             real: &["coap_lite::link_format::LinkFormatWrite / LinkAttributeWrite (link, attr, attr_quoted, attr_u32, attr_u16, finish)"],
             stub: &["fmt::Write sink with injected failures (fail once / fail from / torn)", "document generator"],
@@ -176,7 +176,7 @@ fn props() -> Vec<PropCfg> {
             level: "exploration",
             quick_runs: 60_000,
             thorough_runs: 1_500_000,
-            rule: "One evaluation = one seeded simulated run of the `expiry` family: cache_expiry_duration drawn from {20-60 ms, 1 s, 120 s, 1 h, 49 days}; an observed download (cached response) or upload (buffered prefix) of 3-8 blocks is paused before each exchange for an idle gap drawn relative to the expiry (0, 1/10, 1/2, expiry-1ns, expiry, expiry+1ns, 4x, 1000x, or a chain of gaps each 0.6x); meanwhile 0-2000 noise requests on up to 12 other keys and 0-50 abandoned transfers of other endpoints touch the handler. The fixed-latency network makes arrival-time differences exact, so the reference model (key -> last touch) is two-sided and exact: alive iff idle < expiry, expired iff idle > expiry, either at equality. After EVERY handler call the hook snapshot of physically held entries (clock rewound to 0 for the read) is compared with the model. Non-trivial = runs whose observed transfer had at least one non-zero idle gap evaluated; distinct = distinct (kind, per-gap class and bucket relative to the expiry) sequences, counted by 64-bit hash.",
+            rule: "One evaluation = one seeded simulated run of the `expiry` family: cache_expiry_duration drawn from {20-60 ms, 1 s, 120 s, 1 h, 49 days}; an observed download (cached response) or upload (buffered prefix) of 3-8 blocks is paused before each exchange for an idle gap drawn relative to the expiry (0, 1/10, 1/2, expiry-1ns, expiry, expiry+1ns, 4x, 1000x, or a chain of gaps each 0.6x); meanwhile 0-2000 noise requests (on up to 12 hot keys, or one distinct key per request), requests of the observed endpoint itself with another method on the same path, and 0-50 abandoned transfers of other endpoints touch the handler. The fixed-latency network makes arrival-time differences exact, so the reference model (key -> last touch) is two-sided and exact: alive iff idle < expiry, expired iff idle > expiry, either at equality. After every handler call (every 97th, and every call of the observed endpoint, in the runs with more than 64 live keys) the hook snapshot of physically held entries (clock rewound to 0 for the read) is compared with the model. Non-trivial = runs whose observed transfer had at least one non-zero idle gap evaluated; distinct = distinct (kind, per-gap class and bucket relative to the expiry) sequences, counted by 64-bit hash.",
             assumptions: &[
                 "the handler reads time through lru_time_cache's clock type (canary: a run in which the handler never reads the simulated clock aborts the check with exit 2, not 1)",
                 "uses the cfg(coap_lite_verif) snapshot hook for the held-entries comparison",
@@ -203,7 +203,7 @@ fn props() -> Vec<PropCfg> {
     ]
 }
 
-const OBS_RULE: &str = "One simulated run = a server loop around the real Subject/create_notification with 2-5 observer clients (register, re-register with a new token, deregister with the current or a stale token, ACK with probability 0-100%, go silent, bogus ACKs with unknown / other endpoints' / stale message ids), 1-3 resource paths, limit drawn from {0,1,2,3,10,254,255}, 1-40 notification rounds (260-600 in long runs, which reach the 8-bit counter edge) with per-round CON/NON, over links with drop/dup/delay. One evaluation = one operation the server performed on the Subject, after which the full registry (with the hook also the private counters) is compared with the reference model (refinement). Distinct non-trivial = distinct abstract registry states reached (per path: observer count, multiset of min(unacked, limit+1, 6), number of pending acknowledgements; limit class); distinct_secondary = distinct operation bigrams.";
+const OBS_RULE: &str = "Two thirds of the runs: a server loop around the real Subject/create_notification with 2-5 observer clients (register, re-register with a new token, deregister with the current or a stale token, ACK with probability 0-100%, go silent, bogus ACKs with unknown / other endpoints' / stale message ids), 1-3 resource paths, limit drawn from {0,1,2,3,10,254,255}, 1-40 notification rounds (260-600 in long runs, which reach the 8-bit counter edge) with per-round CON/NON, over links with drop/dup/delay. One evaluation = one operation the server performed on the Subject, after which the full registry (with the hook also the private counters) is compared with the reference model (refinement). Distinct non-trivial = distinct abstract registry states reached (per path: observer count, multiset of min(unacked, limit+1, 6), number of pending acknowledgements; limit class); distinct_secondary = distinct operation bigrams. One third of the runs are direct short histories (1-8 operations over 2 endpoints x 2 tokens x 2 paths (+ an unobserved one) x 2 message ids x {CON,NON}, limits 0-2, applied without a network; coverage.reached_vs_possible reports how many of the possible histories of depth 1-4 were reached). About a quarter of the network runs and 4% of the direct operations change the limit mid-history (set_unacknowledged_limit; tolerant model). Thorough tier: additionally 70 000-round marathons (sequence crosses 65 536).";
 const OBS_ASSUME: &[&str] = &[
     "uses the cfg(coap_lite_verif) Observer accessors to compare private counters; without them only observer lists and eviction rounds are compared",
     "resource absent and resource without observers are treated as equal, except for a path nobody ever registered for",
@@ -212,9 +212,9 @@ const OBS_ASSUME: &[&str] = &[
 const OBS_REAL: &[&str] = &["coap_lite::Subject::{register, deregister, resource_changed, acknowledge, get_resource, get_resource_observers, set_unacknowledged_limit}", "coap_lite::create_notification", "coap_lite::Packet::from_bytes / to_bytes_unlimited", "coap_lite::CoapRequest::{from_packet, get_path, get_observe_flag, set_observe_flag}"];
 const OBS_STUB: &[&str] = &["network (SimNet: drop, dup, delay)", "observer clients", "server notification loop (written from the doc comment on resource_changed)", "reference model of the registry"];
 
-const WIRE_RULE: &str = "One evaluation = one seeded simulated run of the `wire` family: block-wise traffic with option sets on the delta/length codec boundaries plus a byzantine sender crosses links that truncate, flip, set, insert, delete bytes and append garbage (1-2 steps per affected datagram); half of the clients sit behind a forwarding proxy that parses and re-serialises. The reference parser (three-valued verdict) is compared with Packet::from_bytes on every datagram any node parses (counters wire.ref.* give the number of datagrams). Distinct non-trivial = distinct datagram classes reached: hash of (reference verdict class, failing grammar production, nibble classes seen for delta and for length, option count capped at 6, TKL, marker presence, payload length capped at 3).";
+const WIRE_RULE: &str = "One evaluation = one seeded simulated run of the `wire` family: block-wise traffic with option sets on the delta/length codec boundaries plus a byzantine sender crosses links that truncate, flip, set, insert, delete bytes and append garbage (1-2 steps per affected datagram); half of the clients sit behind a forwarding proxy that parses and re-serialises; 1 in 80 byzantine datagrams sits in the 64 KiB corner (16-bit extended length 0xFEF1..0xFFFF with the whole value present). The reference parser (three-valued verdict) is compared with Packet::from_bytes on every datagram any node parses (counters wire.ref.* give the number of datagrams). Distinct non-trivial = distinct datagram classes reached: hash of (reference verdict class, failing grammar production, nibble classes seen for delta and for length, option count capped at 6, TKL, marker presence, payload length capped at 3).";
 const WIRE_ASSUME: &[&str] = &[
-    "narrowed quantifier: byte strings reachable from generated well-formed traffic by <= 2 corruption steps, plus structured-random and raw random strings <= ~1600 bytes; the 64 KiB option corner is reached only in its truncated form",
+    "narrowed quantifier: byte strings reachable from generated well-formed traffic by <= 2 corruption steps, plus structured-random and raw random strings, plus 64 KiB-corner datagrams; not every byte string",
     "the reference parser was written from RFC 7252 section 3 independently of src/packet.rs",
     "this is a weak fit for the technique (both properties are functions of one byte string); the simulator contributes the fault kinds that produce the inputs and the continuation into the real server pipeline",
 ];
@@ -297,6 +297,7 @@ struct Agg {
     known_hits: BTreeMap<usize, u64>,
     other_props: BTreeMap<String, u64>,
     groups: BTreeMap<String, BTreeSet<u64>>,
+    weighted: BTreeMap<u64, u64>,
 }
 
 impl Agg {
@@ -314,6 +315,7 @@ impl Agg {
             known_hits: BTreeMap::new(),
             other_props: BTreeMap::new(),
             groups: BTreeMap::new(),
+            weighted: BTreeMap::new(),
         }
     }
     fn merge(&mut self, o: Agg) {
@@ -337,6 +339,7 @@ impl Agg {
         for (k, v) in o.groups {
             self.groups.entry(k).or_default().extend(v);
         }
+        self.weighted.extend(o.weighted);
     }
 }
 
@@ -391,6 +394,7 @@ fn batch(family: &str, prop: Option<&str>, base_seed: u64, runs: u64, threads: u
                     for (g, h) in &o.groups {
                         a.groups.entry(g.clone()).or_default().insert(*h);
                     }
+                    a.weighted.extend(o.weighted.iter().copied());
                     for v in &o.violations {
                         if prop.map_or(true, |p| p == v.prop) {
                             match is_known(known, v) {
@@ -605,13 +609,14 @@ fn cmd_run(args: &[String]) -> Result<i32, String> {
         }
     }
 
+    let distinct_total = agg.nontrivial.len() as u64 + agg.weighted.values().sum::<u64>();
     let faults: BTreeMap<String, u64> = agg.stats.m.iter().filter(|(k, _)| k.starts_with("fault.")).map(|(k, v)| (k[6..].to_string(), *v)).collect();
     let probes: BTreeMap<String, u64> = agg.stats.m.iter().filter(|(k, _)| k.starts_with("probe.")).map(|(k, v)| (k[6..].to_string(), *v)).collect();
     let counters: BTreeMap<String, u64> = agg.stats.m.iter().filter(|(k, _)| !k.starts_with("probe.") && !k.starts_with("fault.")).map(|(k, v)| (k.to_string(), *v)).collect();
     let mut cov = J::obj()
         .set("evaluations", J::u(agg.units))
         .set("simulated_runs", J::u(agg.runs))
-        .set("distinct_nontrivial", J::u(agg.nontrivial.len() as u64))
+        .set("distinct_nontrivial", J::u(distinct_total))
         .set("rule", J::s(pc.rule))
         .set("samples", J::Arr(samples))
         .set("exhaustive", J::Bool(false))
@@ -661,7 +666,7 @@ fn cmd_run(args: &[String]) -> Result<i32, String> {
     let mut violations = agg.new_viol.len() as u64;
     let mut wall_total = wall;
     // merge partial results of other profiles
-    let mut profiles = vec![J::obj().set("profile", J::s(profile)).set("evaluations", J::u(agg.units)).set("distinct_nontrivial", J::u(agg.nontrivial.len() as u64)).set("wall_s", J::Num(wall))];
+    let mut profiles = vec![J::obj().set("profile", J::s(profile)).set("evaluations", J::u(agg.units)).set("distinct_nontrivial", J::u(distinct_total)).set("wall_s", J::Num(wall))];
     for m in merge {
         if let Ok(text) = std::fs::read_to_string(m) {
             if let Ok(pj) = json::parse(&text) {
@@ -710,7 +715,7 @@ fn cmd_run(args: &[String]) -> Result<i32, String> {
         agg.runs,
         wall,
         if wall > 0.0 { (agg.runs as f64 / wall * 3600.0) as u64 } else { 0 },
-        agg.nontrivial.len(),
+        distinct_total,
         agg.sim_ns as f64 / 1e9,
         faults,
         agg.new_viol.len(),
